@@ -744,4 +744,639 @@ Lemma J_resp0 page : JF (resp0 E page) (fun _ => True).
 Proof. unfold resp0. j_go. Qed.
 End HF.
 
-Check J_remember_mw. Check J_auth_middleware. Check J_lock_mw. Check J_app_handler. Check J_verified. Check Jat_recover_end_post. Check J_oauth2_end. Check J_login_post. Check J_sms_validator_post.
+(* ---- the whole router ---------------------------------------------------------------------------- *)
+Lemma alookup_filter_keys k wl (s : amap) :
+  alookup k (filter (fun kv => bmem (fst kv) wl) s) = if bmem k wl then alookup k s else None.
+Proof.
+  induction s as [|[k' v] s IH]; simpl; [destruct (bmem k wl); reflexivity|].
+  destruct (bmem k' wl) eqn:B; simpl; destruct (beqb k k') eqn:Eb; try exact IH.
+  - apply beqb_eq in Eb. subst k'. rewrite B. reflexivity.
+  - apply beqb_eq in Eb. subst k'. rewrite B in IH. rewrite B. exact IH.
+Qed.
+Lemma aget_filter_keys k wl (s : amap) :
+  bempty (aget k (filter (fun kv => bmem (fst kv) wl) s)) = false ->
+  aget k (filter (fun kv => bmem (fst kv) wl) s) = aget k s.
+Proof.
+  unfold aget. rewrite alookup_filter_keys. destruct (bmem k wl); [reflexivity|]. simpl. discriminate.
+Qed.
+
+Section SV.
+Variable F : bytes -> Prop.
+Variable E : env.
+Hypothesis Huid : bempty (aget k_uid (e_sess E)) = false -> F (aget k_uid (e_sess E)).
+Hypothesis Htp : bempty (aget k_totp_pending (e_sess E)) = false -> F (aget k_totp_pending (e_sess E)).
+Hypothesis Hsp : bempty (aget k_sms_pending (e_sess E)) = false -> F (aget k_sms_pending (e_sess E)).
+Hypothesis Hform : F (aget (pid_field E) (values E)).
+Hypothesis Hrm : forall c raw p,
+  alookup k_rm (e_cook E) = Some c -> b64url_dec c = Some raw -> rm_parse_pid raw = Some p -> F p.
+Hypothesis Hoa : forall prov,
+  q_route (e_req E) = ROAuthCallback prov -> F (make_oauth2_pid prov (pa_uid (o_provider (e_O E)))).
+
+Notation JF := (J F).
+
+Definition sess_view (s : amap) : Prop :=
+  s = e_sess E \/ s = filter (fun kv => bmem (fst kv) (c_whitelist (e_cfg E))) (e_sess E).
+
+Lemma J_expire_mw : JF (expire_mw E) sess_view.
+Proof. unfold expire_mw, sess_view. j_go. Qed.
+
+Lemma sess_view_uid s : sess_view s -> bempty (aget k_uid s) = false -> F (aget k_uid s).
+Proof.
+  intros [->| ->]; [exact Huid|]. intros B. rewrite (aget_filter_keys _ _ _ B) in *.
+  apply Huid. rewrite <- (aget_filter_keys _ _ _ B). exact B.
+Qed.
+
+Lemma J_app_stack full tf fr l c r e : JF (app_stack E full tf fr l c r e) (fun _ => True).
+Proof.
+  unfold app_stack.
+  eapply (J_bind F _ _ sess_view); [destruct e; [apply J_expire_mw|apply J_ret; left; reflexivity]|intros sess Hs].
+  cbv zeta.
+  assert (U' : bempty (aget k_uid (e_sess (with_sess E sess))) = false -> F (aget k_uid (e_sess (with_sess E sess))))
+    by (exact (sess_view_uid sess Hs)).
+  assert (R' : forall c raw p, alookup k_rm (e_cook (with_sess E sess)) = Some c -> b64url_dec c = Some raw ->
+                               rm_parse_pid raw = Some p -> F p) by (exact Hrm).
+  j_go; first [ apply J_remember_mw; assumption | apply J_auth_middleware; assumption
+              | apply J_lock_mw; assumption | apply J_confirm_mw; assumption | apply J_app_handler; assumption ].
+Qed.
+
+(* the two start states *)
+Variables h1 h2 : hst.
+Hypothesis Hcsel : forall raw, b64url_dec (aget f_cnf (values E)) = Some raw ->
+  sel_ok F (fun u => beqb (u_csel u) (selector_of E raw)) h1 h2.
+Hypothesis Hrsel : forall raw, b64url_dec (aget f_token (values E)) = Some raw ->
+  sel_ok F (fun u => beqb (u_rsel u) (selector_of E raw)) h1 h2.
+
+Definition okr (r : routed) : Prop :=
+  match r with Handler h => Jat F h1 h2 h (fun _ => True) | _ => True end.
+
+Lemma okr_when b r : okr r -> okr (when b r).
+Proof. destruct b; simpl; auto. Qed.
+Lemma okr_get_post g p : Jat F h1 h2 g (fun _ => True) -> Jat F h1 h2 p (fun _ => True) -> okr (get_post E g p).
+Proof. intros Hg Hp. unfold get_post. destruct (q_meth (e_req E)); simpl; auto. Qed.
+Lemma okr_on_method m h : Jat F h1 h2 h (fun _ => True) -> okr (on_method E m h).
+Proof. intros Hh. unfold on_method. destruct (meth_eqb _ m); simpl; auto. Qed.
+Lemma Jat_of_J {A} (m : M A) R : JF m R -> Jat F h1 h2 m R.
+Proof. intros H. apply H. Qed.
+
+Ltac hfin1 :=
+  match goal with
+  | |- J _ (login_get _) _ => apply J_login_get
+  | |- J _ (login_post _) _ => apply J_login_post
+  | |- J _ (otp_login_get _) _ => apply J_otp_login_get
+  | |- J _ (otp_login_post _) _ => apply J_otp_login_post
+  | |- J _ (otp_show _ _) _ => apply J_otp_show
+  | |- J _ (otp_add_post _) _ => apply J_otp_add_post
+  | |- J _ (otp_clear_post _) _ => apply J_otp_clear_post
+  | |- J _ (resp0 _ _) _ => apply J_resp0
+  | |- J _ (register_post _) _ => apply J_register_post
+  | |- J _ (recover_start_post _) _ => apply J_recover_start_post
+  | |- J _ (recover_end_get _) _ => apply J_recover_end_get
+  | |- J _ (oauth2_start _ _) _ => apply J_oauth2_start
+  | |- J _ (oauth2_end _ _) _ => apply J_oauth2_end
+  | |- J _ (logout _) _ => apply J_logout
+  | |- J _ (totp_setup_get _) _ => apply J_totp_setup_get
+  | |- J _ (totp_setup_post _) _ => apply J_totp_setup_post
+  | |- J _ (totp_qr _) _ => apply J_totp_qr
+  | |- J _ (totp_confirm_get _) _ => apply J_totp_confirm_get
+  | |- J _ (totp_confirm_post _) _ => apply J_totp_confirm_post
+  | |- J _ (totp_remove_post _) _ => apply J_totp_remove_post
+  | |- J _ (totp_validate_post _) _ => apply J_totp_validate_post
+  | |- J _ (sms_setup_get _) _ => apply J_sms_setup_get
+  | |- J _ (sms_setup_post _) _ => apply J_sms_setup_post
+  | |- J _ (sms_validator_post _ _) _ => apply J_sms_validator_post
+  | |- J _ (email_verify_get _ _) _ => apply J_email_verify_get
+  | |- J _ (email_verify_post _ _) _ => apply J_email_verify_post
+  | |- J _ (email_verify_end _ _) _ => apply J_email_verify_end
+  | |- J _ (recovery_regen_get _) _ => apply J_recovery_regen_get
+  | |- J _ (recovery_regen_post _) _ => apply J_recovery_regen_post
+  end; auto.
+Ltac hfin :=
+  match goal with
+  | |- J _ (verified _ _ _) _ => apply J_verified; [assumption|hfin1]
+  | |- J _ (behind _ _ _) _ => apply J_behind; [assumption|hfin1]
+  | |- _ => hfin1
+  end.
+Ltac hat :=
+  match goal with
+  | |- Jat _ _ _ (confirm_get _) _ => apply Jat_confirm_get; assumption
+  | |- Jat _ _ _ (recover_end_post _) _ => apply Jat_recover_end_post; assumption
+  | |- _ => apply Jat_of_J; hfin
+  end.
+
+Lemma route_table_ok : okr (route_table E).
+Proof.
+  unfold route_table.
+  destruct (q_route (e_req E)) eqn:Rt; cbv beta iota;
+    match goal with
+    | |- okr (Handler _) => apply Jat_of_J, J_app_stack
+    | |- _ => destruct (q_meth (e_req E)) eqn:Mt; cbv beta iota; try exact I;
+              apply okr_when; first [apply okr_get_post | apply okr_on_method]; hat
+    end.
+Qed.
+
+Lemma J_with_error_handler_at (m : M unit) :
+  Jat F h1 h2 m (fun _ => True) -> Jat F h1 h2 (with_error_handler E m) (fun _ => True).
+Proof. intros Hm. unfold with_error_handler. eapply Jat_try; [exact Hm|intros; j_go|intros; j_go]. Qed.
+
+Lemma serve_at : Jat F h1 h2 (serve E) (fun _ => True).
+Proof.
+  unfold serve. pose proof route_table_ok as Hr. destruct (route_table E); simpl in Hr.
+  - apply J_with_error_handler_at. exact Hr.
+  - apply Jat_of_J, J_write_resp.
+  - apply Jat_of_J, J_write_resp.
+Qed.
+End SV.
+
+(* ---- the footprint of a request ----------------------------------------------------------------- *)
+(* a session key names an account only when it is set *)
+Definition ne (p : bytes) : list bytes := if bempty p then [] else [p].
+
+Definition fp_cookie (E : env) : list bytes :=
+  match alookup k_rm (e_cook E) with
+  | Some c => match b64url_dec c with
+              | Some raw => match rm_parse_pid raw with Some p => [p] | None => [] end
+              | None => [] end
+  | None => []
+  end.
+(* the record a submitted confirm / recover token selects in the store the request starts from *)
+Definition fp_sel (f : bytes -> user -> bool) (tok : bytes) (st : storage) : list bytes :=
+  match b64url_dec tok with
+  | Some raw => match ufind (f raw) (s_users st) with Some u => [u_pid u] | None => [] end
+  | None => []
+  end.
+Definition csel_of (E : env) (raw : bytes) (u : user) : bool := beqb (u_csel u) (selector_of E raw).
+Definition rsel_of (E : env) (raw : bytes) (u : user) : bool := beqb (u_rsel u) (selector_of E raw).
+Definition fp_oauth (E : env) : list bytes :=
+  match q_route (e_req E) with
+  | ROAuthCallback prov => [make_oauth2_pid prov (pa_uid (o_provider (e_O E)))]
+  | _ => []
+  end.
+Definition fp_ctx (h : hst) : list bytes :=
+  match h_cuser h with Some u => [u_pid u] | None => [] end ++
+  match h_cpid h with Some p => [p] | None => [] end.
+
+Definition fp (E : env) (h : hst) : list bytes :=
+  ne (aget k_uid (e_sess E)) ++ ne (aget k_totp_pending (e_sess E)) ++ ne (aget k_sms_pending (e_sess E)) ++
+  [aget (pid_field E) (values E)] ++
+  fp_cookie E ++
+  fp_sel (csel_of E) (aget f_cnf (values E)) (h_st h) ++
+  fp_sel (rsel_of E) (aget f_token (values E)) (h_st h) ++
+  fp_oauth E ++
+  fp_ctx h.
+
+Lemma in_ne p : bempty p = false -> In p (ne p).
+Proof. unfold ne. intros ->. left. reflexivity. Qed.
+
+Tactic Notation "in_fp" integer(n) :=
+  unfold fp; do n (apply in_or_app; right); first [apply in_or_app; left|idtac].
+
+Section FPok.
+Variable E : env.
+Variable h : hst.
+Notation Fh := (fun q => In q (fp E h)).
+
+Lemma fp_uid : bempty (aget k_uid (e_sess E)) = false -> In (aget k_uid (e_sess E)) (fp E h).
+Proof. intros B. unfold fp. apply in_or_app. left. apply in_ne, B. Qed.
+Lemma fp_tp : bempty (aget k_totp_pending (e_sess E)) = false -> In (aget k_totp_pending (e_sess E)) (fp E h).
+Proof. intros B. in_fp 1. apply in_ne, B. Qed.
+Lemma fp_sp : bempty (aget k_sms_pending (e_sess E)) = false -> In (aget k_sms_pending (e_sess E)) (fp E h).
+Proof. intros B. in_fp 2. apply in_ne, B. Qed.
+Lemma fp_form : In (aget (pid_field E) (values E)) (fp E h).
+Proof. in_fp 3. left. reflexivity. Qed.
+Lemma fp_rm c raw p :
+  alookup k_rm (e_cook E) = Some c -> b64url_dec c = Some raw -> rm_parse_pid raw = Some p -> In p (fp E h).
+Proof. intros A B C. in_fp 4. unfold fp_cookie. rewrite A, B, C. left. reflexivity. Qed.
+Lemma fp_csel raw u :
+  b64url_dec (aget f_cnf (values E)) = Some raw ->
+  ufind (fun u => beqb (u_csel u) (selector_of E raw)) (s_users (h_st h)) = Some u -> In (u_pid u) (fp E h).
+Proof.
+  intros A B. in_fp 5. unfold fp_sel. rewrite A. unfold csel_of. rewrite B. left. reflexivity.
+Qed.
+Lemma fp_rsel raw u :
+  b64url_dec (aget f_token (values E)) = Some raw ->
+  ufind (fun u => beqb (u_rsel u) (selector_of E raw)) (s_users (h_st h)) = Some u -> In (u_pid u) (fp E h).
+Proof.
+  intros A B. in_fp 6. unfold fp_sel. rewrite A. unfold rsel_of. rewrite B. left. reflexivity.
+Qed.
+Lemma fp_oa prov :
+  q_route (e_req E) = ROAuthCallback prov -> In (make_oauth2_pid prov (pa_uid (o_provider (e_O E)))) (fp E h).
+Proof. intros A. in_fp 7. unfold fp_oauth. rewrite A. left. reflexivity. Qed.
+Lemma fp_cuser u : h_cuser h = Some u -> In (u_pid u) (fp E h).
+Proof. intros A. in_fp 8. unfold fp_ctx. rewrite A. left. reflexivity. Qed.
+Lemma fp_cpid p : h_cpid h = Some p -> In p (fp E h).
+Proof.
+  intros A. unfold fp. do 8 (apply in_or_app; right). unfold fp_ctx. rewrite A.
+  apply in_or_app. right. left. reflexivity.
+Qed.
+
+Lemma wf_start : filed (h_st h) -> wf Fh h.
+Proof. intros Fl. split; [exact Fl|]. split; [exact fp_cuser|exact fp_cpid]. Qed.
+End FPok.
+
+(* two start states as the second half compares them *)
+Definition sel_agree (E : env) (h1 h2 : hst) : Prop :=
+  (forall raw, b64url_dec (aget f_cnf (values E)) = Some raw ->
+     ufind (csel_of E raw) (s_users (h_st h1)) = ufind (csel_of E raw) (s_users (h_st h2))) /\
+  (forall raw, b64url_dec (aget f_token (values E)) = Some raw ->
+     ufind (rsel_of E raw) (s_users (h_st h1)) = ufind (rsel_of E raw) (s_users (h_st h2))).
+
+Lemma sel_agree_refl E h : sel_agree E h h.
+Proof. split; reflexivity. Qed.
+
+Definition agree_on (l : list bytes) (s1 s2 : storage) : Prop :=
+  forall p, In p l -> ulookup p (s_users s1) = ulookup p (s_users s2) /\
+                      rmlookup p (s_rm s1) = rmlookup p (s_rm s2).
+Definition same_off (l : list bytes) (s s' : storage) : Prop :=
+  forall p, ~ In p l -> ulookup p (s_users s') = ulookup p (s_users s) /\
+                        rmlookup p (s_rm s') = rmlookup p (s_rm s).
+
+Lemma serve_two_runs E h1 h2 r1 h1' r2 h2' :
+  filed (h_st h1) -> filed (h_st h2) ->
+  rest h1 = rest h2 -> agree_on (fp E h1) (h_st h1) (h_st h2) -> sel_agree E h1 h2 ->
+  serve E h1 = (r1, h1') -> serve E h2 = (r2, h2') ->
+  r1 = r2 /\ rest h1' = rest h2' /\ agree_on (fp E h1) (h_st h1') (h_st h2') /\
+  same_off (fp E h1) (h_st h1) (h_st h1') /\ filed (h_st h1') /\ filed (h_st h2').
+Proof.
+  intros F1 F2 Hr Ag [Sc Sr] E1 E2.
+  set (F := fun q => In q (fp E h1)).
+  assert (W1 : wf F h1) by (apply wf_start; exact F1).
+  assert (W2 : wf F h2).
+  { destruct (rest_inv _ _ Hr) as (_ & _ & _ & _ & _ & _ & R7 & R8 & _).
+    split; [exact F2|]. split; [rewrite <- R7; apply fp_cuser|rewrite <- R8; apply fp_cpid]. }
+  assert (S : sim F h1 h2) by (split; [exact Hr|exact Ag]).
+  assert (SV : Jat F h1 h2 (serve E) (fun _ => True)).
+  { apply serve_at.
+    - apply fp_uid.
+    - apply fp_tp.
+    - apply fp_sp.
+    - apply fp_form.
+    - apply fp_rm.
+    - apply fp_oa.
+    - intros raw D. split; [apply (Sc raw D)|]. intros u Hu. exact (fp_csel E h1 raw u D Hu).
+    - intros raw D. split; [apply (Sr raw D)|]. intros u Hu. exact (fp_rsel E h1 raw u D Hu). }
+  destruct (SV _ _ _ _ W1 W2 S E1 E2) as (A1 & A2 & A3 & A4 & A5 & _).
+  split; [exact A1|]. split; [apply A4|]. split; [apply A4|]. split; [exact A5|].
+  split; [apply A2|apply A3].
+Qed.
+
+(* C20, first half: a request leaves every account outside its footprint alone *)
+Lemma serve_store_footprint E h r h' p :
+  filed (h_st h) -> serve E h = (r, h') -> ~ In p (fp E h) ->
+  ulookup p (s_users (h_st h')) = ulookup p (s_users (h_st h)) /\
+  rmlookup p (s_rm (h_st h')) = rmlookup p (s_rm (h_st h)).
+Proof.
+  intros Fl Eq Np.
+  destruct (serve_two_runs E h h r h' r h' Fl Fl eq_refl (fun _ _ => conj eq_refl eq_refl) (sel_agree_refl E h) Eq Eq)
+    as (_ & _ & _ & Fr & _).
+  exact (Fr p Np).
+Qed.
+
+Lemma serve_keeps_filed E h r h' : filed (h_st h) -> serve E h = (r, h') -> filed (h_st h').
+Proof.
+  intros Fl Eq.
+  destruct (serve_two_runs E h h r h' r h' Fl Fl eq_refl (fun _ _ => conj eq_refl eq_refl) (sel_agree_refl E h) Eq Eq)
+    as (_ & _ & _ & _ & F' & _).
+  exact F'.
+Qed.
+
+(* C20, second half: the outcome depends only on the accounts of the footprint *)
+Lemma serve_outcome_independent E h1 h2 r1 h1' r2 h2' :
+  filed (h_st h1) -> filed (h_st h2) ->
+  rest h1 = rest h2 -> agree_on (fp E h1) (h_st h1) (h_st h2) -> sel_agree E h1 h2 ->
+  serve E h1 = (r1, h1') -> serve E h2 = (r2, h2') ->
+  r1 = r2 /\ rest h1' = rest h2' /\ agree_on (fp E h1) (h_st h1') (h_st h2') /\
+  same_off (fp E h1) (h_st h1) (h_st h1') /\ same_off (fp E h1) (h_st h2) (h_st h2').
+Proof.
+  intros F1 F2 Hr Ag Sa E1 E2.
+  destruct (serve_two_runs E h1 h2 _ _ _ _ F1 F2 Hr Ag Sa E1 E2) as (A1 & A2 & A3 & A4 & _).
+  split; [exact A1|]. split; [exact A2|]. split; [exact A3|]. split; [exact A4|].
+  (* the second run's own footprint is the same set *)
+  assert (Efp : fp E h2 = fp E h1).
+  { destruct Sa as [Sc Sr]. destruct (rest_inv _ _ Hr) as (_ & _ & _ & _ & _ & _ & R7 & R8 & _).
+    unfold fp, fp_ctx, fp_sel. rewrite R7, R8.
+    destruct (b64url_dec (aget f_cnf (values E))) as [rc|] eqn:Dc; [rewrite (Sc rc eq_refl)|];
+      (destruct (b64url_dec (aget f_token (values E))) as [rr|] eqn:Dr; [rewrite (Sr rr eq_refl)|]); reflexivity. }
+  intros p Np. rewrite <- Efp in Np. exact (serve_store_footprint E h2 r2 h2' p F2 E2 Np).
+Qed.
+
+(* ---- the same two statements for [step]: one request against the whole system --------------------- *)
+From AB Require Import World.Step Proofs.StepUid.
+
+Definition req_env (C : crypto) (cfg : config) (w : world) (req : request) (orc : oracle) : env :=
+  mkEnv C cfg orc req (jar_get (q_browser req) (w_cook w)) (jar_get (q_browser req) (w_sess w)).
+Definition req_fp (C : crypto) (cfg : config) (w : world) (req : request) (orc : oracle) : list bytes :=
+  fp (req_env C cfg w req orc) (init_hst (w_st w) orc).
+
+Lemma step_store_footprint_lemma C cfg w req orc p :
+  filed (w_st w) -> ~ In p (req_fp C cfg w req orc) ->
+  ulookup p (s_users (w_st (fst (step C cfg w (AReq req) orc)))) = ulookup p (s_users (w_st w)) /\
+  rmlookup p (s_rm (w_st (fst (step C cfg w (AReq req) orc)))) = rmlookup p (s_rm (w_st w)).
+Proof.
+  intros Fl Np. unfold step. fold (req_env C cfg w req orc).
+  destruct (serve (req_env C cfg w req orc) (init_hst (w_st w) orc)) as [r h] eqn:Sv.
+  pose proof (serve_store_footprint (req_env C cfg w req orc) (init_hst (w_st w) orc) r h p Fl Sv Np) as Hs.
+  destruct (h_out h); simpl; exact Hs.
+Qed.
+
+Lemma step_outcome_independent_lemma C cfg w1 w2 req orc :
+  filed (w_st w1) -> filed (w_st w2) ->
+  jar_get (q_browser req) (w_sess w1) = jar_get (q_browser req) (w_sess w2) ->
+  jar_get (q_browser req) (w_cook w1) = jar_get (q_browser req) (w_cook w2) ->
+  agree_on (req_fp C cfg w1 req orc) (w_st w1) (w_st w2) ->
+  sel_agree (req_env C cfg w1 req orc) (init_hst (w_st w1) orc) (init_hst (w_st w2) orc) ->
+  snd (step C cfg w1 (AReq req) orc) = snd (step C cfg w2 (AReq req) orc) /\
+  jar_get (q_browser req) (w_sess (fst (step C cfg w1 (AReq req) orc))) =
+    jar_get (q_browser req) (w_sess (fst (step C cfg w2 (AReq req) orc))) /\
+  jar_get (q_browser req) (w_cook (fst (step C cfg w1 (AReq req) orc))) =
+    jar_get (q_browser req) (w_cook (fst (step C cfg w2 (AReq req) orc))) /\
+  agree_on (req_fp C cfg w1 req orc) (w_st (fst (step C cfg w1 (AReq req) orc))) (w_st (fst (step C cfg w2 (AReq req) orc))) /\
+  same_off (req_fp C cfg w1 req orc) (w_st w1) (w_st (fst (step C cfg w1 (AReq req) orc))) /\
+  same_off (req_fp C cfg w1 req orc) (w_st w2) (w_st (fst (step C cfg w2 (AReq req) orc))).
+Proof.
+  intros F1 F2 Js Jc Ag Sa. unfold step.
+  fold (req_env C cfg w1 req orc). fold (req_env C cfg w2 req orc).
+  assert (EE : req_env C cfg w2 req orc = req_env C cfg w1 req orc) by (unfold req_env; rewrite Js, Jc; reflexivity).
+  rewrite EE. rewrite <- Js, <- Jc.
+  destruct (serve (req_env C cfg w1 req orc) (init_hst (w_st w1) orc)) as [r1 k1] eqn:S1.
+  destruct (serve (req_env C cfg w1 req orc) (init_hst (w_st w2) orc)) as [r2 k2] eqn:S2.
+  destruct (serve_outcome_independent (req_env C cfg w1 req orc) (init_hst (w_st w1) orc) (init_hst (w_st w2) orc)
+              _ _ _ _ F1 F2 eq_refl Ag Sa S1 S2) as (A1 & A2 & A3 & A4 & A5).
+  subst r2. destruct (rest_inv _ _ A2) as (R1 & R2 & R3 & R4 & R5 & R6 & R7 & R8 & R9 & R10 & R11 & R12).
+  split; [unfold obs_of; simpl; congruence|].
+  rewrite <- R3. destruct (h_out k1) as [wr|]; simpl.
+  - rewrite !jar_get_set_eq. auto.
+  - rewrite Js, Jc. auto.
+Qed.
+
+(* ---- when do two stores answer a selector query alike? --------------------------------------------- *)
+Lemma ufind_some_spec f u l : ufind f l = Some u -> exists k, In (k, u) l /\ f u = true.
+Proof.
+  induction l as [|[k' u'] l IH]; simpl; [discriminate|]. destruct (f u') eqn:Fu.
+  - intros H; inversion H; subst. exists k'. split; [left; reflexivity|exact Fu].
+  - intros H. destruct (IH H) as (k & Hk & Hf). exists k. split; [right; exact Hk|exact Hf].
+Qed.
+Lemma ufind_none_spec f l : ufind f l = None -> forall k u, In (k, u) l -> f u = false.
+Proof.
+  induction l as [|[k' u'] l IH]; simpl; [intros _ k u []|]. destruct (f u') eqn:Fu; [discriminate|].
+  intros H k u [Hi|Hi]; [inversion Hi; subst; exact Fu|exact (IH H k u Hi)].
+Qed.
+
+Lemma ufind_agree f l1 l2 (G : bytes -> Prop) :
+  filedl l1 -> filedl l2 ->
+  (forall p, G p -> ulookup p l1 = ulookup p l2) ->
+  (forall k u, In (k, u) l1 -> f u = true -> G k) ->
+  (forall k u, In (k, u) l2 -> f u = true -> G k) ->
+  (forall k u k' u', In (k, u) l1 -> In (k', u') l1 -> f u = true -> f u' = true -> k = k') ->
+  ufind f l1 = ufind f l2.
+Proof.
+  intros [N1 K1] [N2 K2] Ag G1 G2 Un.
+  destruct (ufind f l1) as [u1|] eqn:A; destruct (ufind f l2) as [u2|] eqn:B; [| | |reflexivity].
+  - apply ufind_some_spec in A as (k1 & I1 & T1). apply ufind_some_spec in B as (k2 & I2 & T2).
+    pose proof (in_ulookup _ _ _ N2 I2) as L2. rewrite <- (Ag k2 (G2 _ _ I2 T2)) in L2.
+    pose proof (ulookup_in _ _ _ L2) as I2'.
+    assert (k1 = k2) by (exact (Un _ _ _ _ I1 I2' T1 T2)). subst k2.
+    pose proof (in_ulookup _ _ _ N1 I1) as L1. congruence.
+  - exfalso. apply ufind_some_spec in A as (k1 & I1 & T1).
+    pose proof (in_ulookup _ _ _ N1 I1) as L1. rewrite (Ag k1 (G1 _ _ I1 T1)) in L1.
+    pose proof (ufind_none_spec _ _ B _ _ (ulookup_in _ _ _ L1)). congruence.
+  - exfalso. apply ufind_some_spec in B as (k2 & I2 & T2).
+    pose proof (in_ulookup _ _ _ N2 I2) as L2. rewrite <- (Ag k2 (G2 _ _ I2 T2)) in L2.
+    pose proof (ufind_none_spec _ _ A _ _ (ulookup_in _ _ _ L2)). congruence.
+Qed.
+
+(* in both stores every record the selector matches belongs to an account of the set l, and in
+   the first store the selector matches at most one record *)
+Definition sel_within (f : user -> bool) (l : list bytes) (h1 h2 : hst) : Prop :=
+  (forall k u, In (k, u) (s_users (h_st h1)) -> f u = true -> In k l) /\
+  (forall k u, In (k, u) (s_users (h_st h2)) -> f u = true -> In k l) /\
+  (forall k u k' u', In (k, u) (s_users (h_st h1)) -> In (k', u') (s_users (h_st h1)) ->
+                     f u = true -> f u' = true -> k = k').
+
+Lemma sel_agree_of_within E h1 h2 l :
+  filed (h_st h1) -> filed (h_st h2) -> agree_on l (h_st h1) (h_st h2) ->
+  (forall raw, b64url_dec (aget f_cnf (values E)) = Some raw -> sel_within (csel_of E raw) l h1 h2) ->
+  (forall raw, b64url_dec (aget f_token (values E)) = Some raw -> sel_within (rsel_of E raw) l h1 h2) ->
+  sel_agree E h1 h2.
+Proof.
+  intros F1 F2 Ag Hc Hr. split; intros raw D.
+  - destruct (Hc raw D) as (A & B & U).
+    apply (ufind_agree _ _ _ (fun k => In k l)); auto. intros p Hp. apply (Ag p Hp).
+  - destruct (Hr raw D) as (A & B & U).
+    apply (ufind_agree _ _ _ (fun k => In k l)); auto. intros p Hp. apply (Ag p Hp).
+Qed.
+
+(* ==== C06, recover side: a password reset drops the account's remember tokens ======================== *)
+From AB Require Import Proofs.TokenProofs.
+
+Definition srm (h : hst) := s_rm (h_st h).
+#[local] Instance dep_srm : StDep srm.
+Proof. intros h h' A _. unfold srm. rewrite A. reflexivity. Qed.
+
+Section RR.
+Variable E : env.
+
+Lemma pres_srm_st_save u : pres srm (st_save (e_O E) u).
+Proof.
+  unfold st_save. apply (pres_backend srm). intros h r h' Eq. inversion Eq; subst. reflexivity.
+Qed.
+
+Lemma pres_srm_set_cuser u : pres srm (set_cuser u).
+Proof. intros h r h' Eq. inversion Eq; subst. reflexivity. Qed.
+
+Ltac srm_go := repeat (first [ apply pres_srm_st_save | apply pres_srm_set_cuser | progress pres_go ]).
+
+Lemma pres_srm_hook hk hd : hk <> HRememberReset -> pres srm (run_hook E hk false hd).
+Proof.
+  intros N. destruct hk; try (exfalso; apply N; reflexivity); unfold run_hook; cbn [negb]; srm_go.
+Qed.
+Lemma pres_srm_call hs : Forall (fun hk => hk <> HRememberReset) hs -> forall hd, pres srm (call E hs false hd).
+Proof.
+  induction hs as [|hk hs IH]; intros Fa hd; cbn [call].
+  - apply pres_ret.
+  - inversion Fa; subst. apply pres_bind; [apply pres_srm_hook; assumption|intros; apply IH; assumption].
+Qed.
+Lemma hooks_no_reset e : e <> EvAfterRecoverEnd -> Forall (fun hk => hk <> HRememberReset) (hooks E e).
+Proof.
+  intros Ne. unfold hooks. apply Forall_app. split.
+  - induction (c_mods (e_cfg E)) as [|m l IH]; simpl; [constructor|].
+    apply Forall_app. split; [|exact IH].
+    destruct m, e; simpl; repeat constructor; try discriminate; congruence.
+  - destruct e; try constructor; try discriminate.
+    + destruct (c_expire (e_cfg E)); repeat constructor; discriminate.
+    + destruct (c_sms_first (e_cfg E)), (c_totp (e_cfg E)), (c_sms (e_cfg E)); simpl; repeat constructor; discriminate.
+Qed.
+Lemma pres_srm_fire e : e <> EvAfterRecoverEnd -> pres srm (fire E e false).
+Proof. intros Ne. unfold fire. apply pres_srm_call, hooks_no_reset, Ne. Qed.
+
+(* the hooks of the recover-end event: one remember reset per loaded remember module *)
+Lemma reset_hooks :
+  Forall (eq HRememberReset) (hooks E EvAfterRecoverEnd) /\
+  (has_mod (e_cfg E) MRemember = true -> hooks E EvAfterRecoverEnd <> []).
+Proof.
+  unfold hooks, has_mod. rewrite app_nil_r.
+  induction (c_mods (e_cfg E)) as [|m l [IH1 IH2]]; simpl; [split; [constructor|discriminate]|].
+  split.
+  - apply Forall_app. split; [|exact IH1]. destruct m; simpl; repeat constructor.
+  - destruct m; simpl; try exact IH2; intros _; discriminate.
+Qed.
+
+Lemma reset_hook_spec cu rm hd h r h' :
+  h_cuser h = Some cu -> run_hook E HRememberReset rm hd h = (r, h') ->
+  h_cuser h' = Some cu /\ s_users (h_st h') = s_users (h_st h) /\
+  ((r = Ok false /\ s_rm (h_st h') = rmput (u_pid cu) [] (s_rm (h_st h))) \/
+   ((exists e, r = Err e) /\ s_rm (h_st h') = s_rm (h_st h))).
+Proof.
+  intros Hc Eq. cbn [run_hook] in Eq.
+  apply bind_inv in Eq as [(x & h1 & E1 & E2)|[(e & E1 & ->)|(E1 & ->)]];
+    rewrite (current_user_ctx E h cu Hc) in E1; try discriminate E1.
+  inversion E1; subst x h1; clear E1. cbn beta iota in E2.
+  apply bind_inv in E2 as [(x & h1 & E1 & E2)|[(e & E1 & ->)|(E1 & ->)]]; try (inversion E1; fail).
+  inversion E1; subst x h1; clear E1.
+  apply bind_inv in E2 as [(x & h1 & E1 & E2)|[(e & E1 & ->)|(E1 & ->)]]; try (inversion E1; fail).
+  inversion E1; subst x h1; clear E1.
+  apply bind_inv in E2 as [(x & h1 & E1 & E2)|[(e & E1 & ->)|(E1 & ->)]]; unfold st_del_rm in E1;
+    destruct (backend_inv E _ _ _ _ _ E1) as [(e' & Hr & _ & _ & _ & A4 & A5 & _)|(k & _ & _ & _ & A4 & A5 & _ & _ & Eb)];
+    try discriminate Hr; try (inversion Eb; fail).
+  - inversion Eb; subst. inversion E2; subst. simpl. rewrite A4, A5. simpl. split; [exact Hc|]. split; [reflexivity|].
+    left. split; reflexivity.
+  - rewrite A4, A5. simpl. split; [exact Hc|]. split; [reflexivity|]. right. split; [eauto|reflexivity].
+Qed.
+
+Lemma call_resets hs : Forall (eq HRememberReset) hs -> forall hd h r h' cu,
+  h_cuser h = Some cu -> call E hs false hd h = (r, h') ->
+  h_cuser h' = Some cu /\ s_users (h_st h') = s_users (h_st h) /\
+  (forall p, p <> u_pid cu -> rmlookup p (s_rm (h_st h')) = rmlookup p (s_rm (h_st h))) /\
+  (rmlookup (u_pid cu) (s_rm (h_st h')) = [] \/ s_rm (h_st h') = s_rm (h_st h)) /\
+  ((exists b, r = Ok b) -> hs <> [] -> rmlookup (u_pid cu) (s_rm (h_st h')) = []).
+Proof.
+  induction hs as [|hk hs IH]; intros Fa hd h r h' cu Hc Eq; cbn [call] in Eq.
+  - inversion Eq; subst. repeat split; auto. intros _ N. exfalso. apply N. reflexivity.
+  - inversion Fa as [|? ? Hk Fa']; subst.
+    apply bind_inv in Eq as [(i & h1 & E1 & E2)|[(e & E1 & ->)|(E1 & ->)]];
+      destruct (reset_hook_spec cu _ _ _ _ _ Hc E1) as (C1 & U1 & [(Hr & S1)|((e' & Hr) & S1)]); try discriminate Hr.
+    + destruct (IH Fa' _ _ _ _ cu C1 E2) as (C2 & U2 & O2 & P2 & L2).
+      assert (PE : rmlookup (u_pid cu) (s_rm (h_st h')) = []).
+      { destruct P2 as [P2|P2]; [exact P2|]. rewrite P2, S1. apply rmlookup_rmput_eq. }
+      split; [exact C2|]. split; [congruence|]. split.
+      * intros p Np. rewrite (O2 p Np), S1. apply rmlookup_rmput_neq. exact Np.
+      * split; [left; exact PE|]. intros _ _. exact PE.
+    + split; [exact C1|]. split; [exact U1|]. split; [intros p _; rewrite S1; reflexivity|].
+      split; [right; exact S1|]. intros (b & Hb) _. discriminate Hb.
+Qed.
+
+Notation vals := (values E).
+Notation now := (o_now (e_O E)).
+
+(* the remember table through a recover-end request *)
+Lemma recover_end_rm_cases h r h' :
+  recover_end_post E h = (r, h') ->
+  h_st h' = h_st h \/
+  exists raw u,
+    b64url_dec (aget f_token vals) = Some raw /\
+    ufind (fun u => beqb (u_rsel u) (selector_of E raw)) (s_users (h_st h)) = Some u /\
+    (forall p, p <> u_pid u -> rmlookup p (s_rm (h_st h')) = rmlookup p (s_rm (h_st h))) /\
+    (rmlookup (u_pid u) (s_rm (h_st h')) = [] \/ s_rm (h_st h') = s_rm (h_st h)) /\
+    (r = Ok tt -> has_mod (e_cfg E) MRemember = true -> rmlookup (u_pid u) (s_rm (h_st h')) = []).
+Proof.
+  intros Eq. unfold recover_end_post in Eq.
+  apply bind_inv in Eq as [(v & h1 & E1 & E2)|[(e & E1 & ->)|(E1 & ->)]];
+    apply read_values_spec in E1 as [-> [Hv|Hv]]; try discriminate Hv; auto.
+  inversion Hv; subst v; clear Hv. cbn beta zeta in E2.
+  destruct (valid [password_rule] pw_pairs vals) eqn:V; cbn [negb] in E2.
+  2:{ left. revert E2. apply pres_bind; [apply pres_log; exact _|intros; apply pres_respond; exact _]. }
+  destruct (b64url_dec (aget f_token vals)) as [raw|] eqn:Dec; [|left; eapply pres_invalid_recover; eauto].
+  destruct (Nat.eqb (length raw) 64) eqn:Len; cbn [negb] in E2; [|left; eapply pres_invalid_recover; eauto].
+  apply try_inv in E2 as [(x & h2 & L & NP & K)|(L & ->)].
+  2:{ apply st_load_by_rsel_spec in L. destruct L as (_ & _ & N & _). congruence. }
+  apply st_load_by_rsel_spec in L as (S2 & _ & _ & Hu).
+  destruct x as [u|e|]; [|destruct e|congruence];
+    try (left; rewrite <- S2; eapply pres_invalid_recover; eauto; fail);
+    try (left; inversion K; subst; exact S2; fail).
+  specialize (Hu u eq_refl).
+  destruct (u_rexp u <? now) eqn:Exp; [left; rewrite <- S2; eapply pres_invalid_recover; eauto|].
+  destruct (b64std_dec (u_rver u)) as [dbv|] eqn:Dv; [|left; rewrite <- S2; eapply pres_invalid_recover; eauto].
+  destruct (beqb (sha (e_C E) (half2 raw)) dbv) eqn:Ver; cbn [negb] in K;
+    [|left; rewrite <- S2; eapply pres_invalid_recover; eauto].
+  apply bind_pres_inv in K as [(a & h3 & _ & S3 & K)|K]; [|left; congruence|apply pres_st_set_cuser].
+  apply bind_pres_inv in K as [(a1 & h4 & _ & S4 & K)|K]; [|left; congruence|
+    destruct (72 <? length (aget f_password vals))%nat; [apply pres_backend; [exact _|apply pres_fail]|apply pres_ret]].
+  apply bind_pres_inv in K as [(pass & h5 & _ & S5 & K)|K]; [|left; congruence|apply pres_backend; [exact _|apply pres_ret]].
+  cbn beta zeta in K.
+  match type of K with (set_cuser ?x ;;; _) _ = _ => set (u' := x) in * end.
+  apply bind_inv in K as [(a2 & h6 & K1 & K)|[(e & K1 & ->)|(K1 & ->)]]; try (inversion K1; fail).
+  inversion K1; subst a2 h6; clear K1.
+  apply bind_inv in K as [(a3 & h7 & K1 & K)|[(e & K1 & ->)|(K1 & ->)]];
+    apply st_save_spec in K1 as (_ & _ & _ & Cu & [(e' & Hr & St)|(Hr & St)]); try discriminate Hr;
+    try (left; rewrite St; simpl; congruence).
+  simpl in St, Cu.
+  assert (R7 : s_rm (h_st h7) = s_rm (h_st h)) by (rewrite St; simpl; congruence).
+  right. exists raw, u. split; [reflexivity|]. split; [exact Hu|].
+  change (u_pid u) with (u_pid u').
+  destruct reset_hooks as [RH1 RH2].
+  apply bind_inv in K as [(a4 & h8 & K1 & K)|[(e & K1 & ->)|(K1 & ->)]];
+    unfold fire in K1; destruct (call_resets _ RH1 _ _ _ _ u' Cu K1) as (C8 & _ & O8 & P8 & L8);
+    rewrite R7 in *.
+  - assert (T : s_rm (h_st h') = s_rm (h_st h8)).
+    { revert K. generalize h8 r h'.
+      change (pres srm (if c_recover_login (e_cfg E)
+                then handled <- fire E EvBeforeAuth false ;;
+                     (if handled then ret tt
+                      else handled0 <- fire E EvBeforeHijack false ;;
+                           (if handled0 then ret tt
+                            else put_session k_uid (u_pid u') ;;;
+                                 handled1 <- fire E EvAfterAuth false ;;
+                                 (if handled1 then ret tt else redirect E (ro_ok p_recover_ok))))
+                else redirect E (ro_ok p_recover_ok))).
+      assert (KR : forall ro, pres srm (redirect E ro)) by (intros; apply pres_redirect; exact _).
+      destruct (c_recover_login (e_cfg E)); [|apply KR].
+      apply pres_bind; [apply pres_srm_fire; discriminate|intros hd1].
+      destruct hd1; [apply pres_ret|].
+      apply pres_bind; [apply pres_srm_fire; discriminate|intros hd2].
+      destruct hd2; [apply pres_ret|].
+      apply pres_bind; [apply pres_put_session; exact _|intros _].
+      apply pres_bind; [apply pres_srm_fire; discriminate|intros hd3].
+      destruct hd3; [apply pres_ret|apply KR]. }
+    rewrite T. split; [exact O8|]. split; [exact P8|]. intros _ HM. apply L8; [eauto|apply RH2, HM].
+  - split; [exact O8|]. split; [exact P8|]. intros Hx. discriminate Hx.
+  - split; [exact O8|]. split; [exact P8|]. intros Hx. discriminate Hx.
+Qed.
+
+(* C06 for the recover flow.  p: an account whose stored record this request changed. *)
+Lemma recover_revokes_tokens_lemma h r h' p :
+  recover_end_post E h = (r, h') ->
+  ulookup p (s_users (h_st h')) <> ulookup p (s_users (h_st h)) ->
+  (forall q, q <> p ->
+     ulookup q (s_users (h_st h')) = ulookup q (s_users (h_st h)) /\
+     rmlookup q (s_rm (h_st h')) = rmlookup q (s_rm (h_st h))) /\
+  (rmlookup p (s_rm (h_st h')) = [] \/ rmlookup p (s_rm (h_st h')) = rmlookup p (s_rm (h_st h))) /\
+  (r = Ok tt -> has_mod (e_cfg E) MRemember = true -> rmlookup p (s_rm (h_st h')) = []).
+Proof.
+  intros Eq Ch.
+  destruct (recover_end_cases E _ _ _ Eq) as [U|(raw & u & A1 & _ & A3 & _ & _ & _ & _ & _ & Fr)];
+    [rewrite U in Ch; contradiction|].
+  destruct (recover_end_rm_cases _ _ _ Eq) as [U|(raw' & u' & B1 & B2 & Oth & Own & Okk)];
+    [rewrite U in Ch; contradiction|].
+  assert (raw' = raw) by congruence. subst raw'. assert (u' = u) by congruence. subst u'.
+  assert (p = u_pid u).
+  { destruct (bytes_dec p (u_pid u)) as [e|N]; [exact e|]. exfalso. apply Ch. apply Fr. exact N. }
+  subst p. split; [|split].
+  - intros q Nq. split; [apply Fr; exact Nq|apply Oth; exact Nq].
+  - destruct Own as [O1|O1]; [left; exact O1|right; rewrite O1; reflexivity].
+  - exact Okk.
+Qed.
+
+(* the same, read as the property words it: the request changed the password stored for p *)
+Lemma recover_password_change_revokes_lemma h r h' p a b :
+  recover_end_post E h = (r, h') ->
+  ulookup p (s_users (h_st h)) = Some a -> ulookup p (s_users (h_st h')) = Some b ->
+  u_password b <> u_password a ->
+  (forall q, q <> p ->
+     ulookup q (s_users (h_st h')) = ulookup q (s_users (h_st h)) /\
+     rmlookup q (s_rm (h_st h')) = rmlookup q (s_rm (h_st h))) /\
+  (rmlookup p (s_rm (h_st h')) = [] \/ rmlookup p (s_rm (h_st h')) = rmlookup p (s_rm (h_st h))) /\
+  (r = Ok tt -> has_mod (e_cfg E) MRemember = true -> rmlookup p (s_rm (h_st h')) = []).
+Proof.
+  intros Eq La Lb Np. apply (recover_revokes_tokens_lemma h r h' p Eq).
+  rewrite La, Lb. intros H. inversion H; subst. apply Np. reflexivity.
+Qed.
+End RR.
